@@ -30,7 +30,7 @@ def main():
     import re
     dp = os.path.join(dst, "demo.py")
     dsrc = open(dp).read()
-    dnew = re.sub(r'litex\.__file__\.startswith\((["\'])/tmp/sc_C\d\d/?\1\)', 'litex.__file__.startswith(__import__("os").environ.get("PYTHONPATH", "/").split(":")[0])', dsrc)
+    dnew = re.sub(r'litex\.__file__\.startswith\((["\'])/tmp/s[cd]_C\d\d/?\1\)', 'litex.__file__.startswith(__import__("os").environ.get("PYTHONPATH", "/").split(":")[0])', dsrc)
     if dnew != dsrc:
         open(dp, "w").write(dnew)
     meta = json.load(open(os.path.join(dst, "meta.json")))
